@@ -38,7 +38,7 @@ ASSUMPTIONS = ["crash = Python-level interruption at a statement boundary, or os
                "stale but valid files of an earlier run (e.g. an old lf.cbin beside a fresh lf.bin) are not a violation: the property asks for a complete, valid set",
                "after the original has been deleted by a verified run the history ends (there is no input left to hand to the converter)"]
 REQUIRED = {"reused_converter_runs": 12, "crash_points_fired": 40, "distinct_crash_sites": 30, "history_steps": 60, "remove_original_judged": 3, "idempotence_checked": 8,
-            "completeness_checked": 20, "recoverability_checked": 100, "corruptions_injected": 12}
+            "completeness_checked": 20, "recoverability_checked": 100, "corruptions_injected": 12, "originals_with_inconsistent_metadata": 5}
 CASE_TIMEOUT = 60.0
 MAX_PROCS = 14
 WINDOW = 1200
@@ -50,14 +50,20 @@ STATE = {"conv": None, "check_done": set()}
 def make_original(rng, root, kind, cbin_original, ns=None):
     """<root>/probe00/NAME.(bin|cbin) ; returns rec"""
     ns = int(rng.integers(1500, 2600)) if ns is None else ns
+    # a quarter of the originals carry metadata announcing another length than the file holds (acquisition stopped abruptly, metadata of an
+    # earlier copy): the recording is what the FILE holds, every sample of it must stay recoverable
+    claim = None
+    if rng.random() < 0.25:
+        claim = max(600, ns + int(rng.choice([-1, 1])) * int(rng.choice([1, 12, 240, 1200])))
     if kind == "NP2.4r":
         sites = np2.shank_assignment(rng, str(rng.choice(["random", "blocks"])), int(rng.integers(2, 4)))
-        b, rec = np2.build(rng, root, kind="NP2.4", ns=ns, sites=sites, content="random", gain=np2.GAIN_PAIRS[int(rng.integers(0, 4))])
+        b, rec = np2.build(rng, root, kind="NP2.4", ns=ns, sites=sites, content="random", gain=np2.GAIN_PAIRS[int(rng.integers(0, 4))], claim_ns=claim)
     elif kind == "NP1":
-        rec = G.make(rng, kind="3B2", ns=ns, content="random")
+        rec = G.make(rng, kind="3B2", ns=ns, content="random", claim_ns=claim)
         b = G.write(rec, Path(root) / "probe00", name=np2.NAME)
     else:
-        b, rec = np2.build(rng, root, kind=kind, ns=ns, content="random", gain=np2.GAIN_PAIRS[int(rng.integers(0, 4))])
+        b, rec = np2.build(rng, root, kind=kind, ns=ns, content="random", gain=np2.GAIN_PAIRS[int(rng.integers(0, 4))], claim_ns=claim)
+    rec.claim = claim
     if cbin_original:
         import mtscomp
         mtscomp.compress(b, out=b.with_suffix(".cbin"), outmeta=b.with_suffix(".ch"), sample_rate=rec.fs, n_channels=rec.nc, dtype=np.int16,
@@ -444,7 +450,10 @@ def run_case(case):
             elif si > 0 and case["change_opts"]:
                 opts = opts_of(int(rng.integers(0, 8)))
             overwrite = what == "overwrite"
-            label = f"{kind} {'cbin' if case['cbin'] else 'bin'} history={case['steps']} step {si}:{what} opts={ {k: int(v) for k, v in opts.items()} }"
+            label = (f"{kind} {'cbin' if case['cbin'] else 'bin'} history={case['steps']} step {si}:{what} opts={ {k: int(v) for k, v in opts.items()} }"
+                     + (f" (file holds {rec.ns} samples, metadata announces {rec.claim})" if rec.claim else ""))
+            if rec.claim and si == 0:
+                res.count("originals_with_inconsistent_metadata")
             snap = M.snapshot(root)
             r = step(res, root, rec, opts, overwrite, label + (" (same converter object)" if holder is not None else ""), holder=holder)
             if r["exc"] == "no-original":
